@@ -2340,6 +2340,146 @@ func scenForeignDialer(e *engineA) error {
 	return e.finish()
 }
 
+func init() { scenarios["promoted-unaware"] = scenPromotedUnaware }
+
+// scenPromotedUnaware (C17): a non-voter that has been a member for a while
+// is promoted; the configuration that makes it a voter is committed by the
+// other three, but the link from the leader to the promoted node goes silent
+// just before that entry is sent, and then the leader itself falls silent
+// (connections stay open and carry nothing: a machine that hangs or loses
+// power). Three of the four voters of the committed configuration are
+// running and connected; they must elect a leader within a bounded number of
+// election timeouts. The promoted node still counts itself a non-voter, so
+// it cannot campaign, but it must notice that its leader is gone and vote.
+func scenPromotedUnaware(e *engineA) error {
+	e.prof = profiles["member"]
+	if err := e.boot(3); err != nil {
+		return err
+	}
+	e.cl.startInfoSampler(e.hb() / 2)
+	l := e.cl.leader()
+	if l == nil {
+		return fmt.Errorf("no leader")
+	}
+	for i := 0; i < 3; i++ {
+		e.cl.fsmOp(1, l, "update")
+	}
+	info, ok := l.info(false)
+	if !ok {
+		return fmt.Errorf("no status")
+	}
+	conf := info.Configs.Latest
+	id := e.newNodeID(&conf)
+	if id == 0 {
+		return fmt.Errorf("no new node")
+	}
+	if err := e.cl.changeConfig(l, fmt.Sprintf("add(%d,promote=false)", id), func(c *raft.Config) error {
+		return c.AddNonvoter(id, e.cl.addrOf(id), false)
+	}); err != nil {
+		return fmt.Errorf("add: %v", err)
+	}
+	n := e.cl.node(id)
+	// the new member idles as a non-voter for a few election timeouts, with
+	// an entry now and then
+	for i := 0; i < 2+e.rng.Intn(3); i++ {
+		e.sleepHB(2, 3)
+		e.cl.fsmOp(1, l, "update")
+	}
+	if cur := e.cl.leader(); cur != l {
+		return fmt.Errorf("leader changed during the preparation")
+	}
+	e.rc.emit(&ev.Rec{K: "fault", Op: "leader-silent-towards-promoted-node-then-silent", Nid: l.nid, ID: id})
+	var cutDone int32
+	ldir := l.dir
+	e.rc.setOnNodeEvent(func(dir string, r *ev.Rec) {
+		if dir == ldir && r.K == "append" && r.Cfg != nil && r.Cfg.IsVoter(id) && atomic.CompareAndSwapInt32(&cutDone, 0, 1) {
+			e.net.Cut(l.label, n.label, true)
+		}
+	})
+	go e.cl.changeConfig(l, fmt.Sprintf("promote(%d)", id), func(c *raft.Config) error { return c.SetAction(id, raft.Promote) })
+	committed := e.waitFor(80, func() bool {
+		li, ok := l.info(false)
+		return ok && atomic.LoadInt32(&cutDone) == 1 && li.Configs.IsCommitted() && li.Configs.Latest.Nodes[id].Voter
+	})
+	e.rc.setOnNodeEvent(nil)
+	if !committed {
+		return fmt.Errorf("promotion was not committed")
+	}
+	if ni, ok := n.info(false); ok && ni.Configs.Latest.Nodes[id].Voter {
+		return fmt.Errorf("the promoted node learnt of its promotion")
+	}
+	fs := e.others(l)
+	e.isolate(l, true)
+	elected := e.waitFor(40, func() bool {
+		for _, f := range fs {
+			if fi, ok := f.info(false); ok && fi.State == raft.Leader {
+				return true
+			}
+		}
+		return false
+	})
+	rec := &ev.Rec{K: "bounded-election", Cid: e.cl.cid, Nid: l.nid, ID: id, Kind: "leader-elected"}
+	if !elected {
+		rec.Kind = "no-election"
+		for _, f := range fs {
+			if fi, ok := f.info(false); ok {
+				rec.Note += fmt.Sprintf("node %d: %v term %d leader %d; ", f.nid, fi.State, fi.Term, fi.Leader)
+			}
+		}
+	}
+	e.rc.emit(rec)
+	e.isolate(l, false)
+	e.net.Cut(l.label, n.label, false)
+	e.startClients(2, map[string]int{"update": 3, "read": 1})
+	e.sleepHB(3, 6)
+	return e.finish()
+}
+
+func init() { scenarios["self-demotion-uncommitted"] = scenSelfDemotionUncommitted }
+
+// scenSelfDemotionUncommitted (C17; known finding): the leader of a
+// two-voter cluster is asked to demote (or remove) itself while the link to
+// the other voter is down for a moment. It stores the configuration in which
+// it no longer votes, cannot replicate it, and gives up its office when it
+// finds that it reaches nobody. The link comes back: both nodes are healthy,
+// and a leader has to emerge within the bound.
+func scenSelfDemotionUncommitted(e *engineA) error {
+	e.prof = profiles["member"]
+	if err := e.boot(2); err != nil {
+		return err
+	}
+	e.cl.startInfoSampler(e.hb() / 2)
+	l := e.cl.leader()
+	if l == nil {
+		return fmt.Errorf("no leader")
+	}
+	for i := 0; i < 3; i++ {
+		e.cl.fsmOp(1, l, "update")
+	}
+	f := e.others(l)[0]
+	act := []raft.Action{raft.Demote, raft.Remove}[e.rng.Intn(2)]
+	e.rc.emit(&ev.Rec{K: "fault", Op: "leader-of-two-stores-its-own-demotion-and-cannot-replicate-it", Nid: l.nid})
+	e.cutBoth(l, f, true)
+	before, _ := l.info(false)
+	go e.cl.changeConfig(l, fmt.Sprintf("self-%v(%d)", act, l.nid), func(c *raft.Config) error { return c.SetAction(l.nid, act) })
+	if !e.waitFor(40, func() bool {
+		li, ok := l.info(false)
+		return ok && li.Configs.Latest.Index > before.Configs.Latest.Index
+	}) {
+		return fmt.Errorf("the request was not stored")
+	}
+	// it notices that it reaches nobody and gives up its office
+	if !e.waitFor(80, func() bool {
+		li, ok := l.info(false)
+		return ok && li.State != raft.Leader
+	}) {
+		return fmt.Errorf("the leader kept its office")
+	}
+	e.cutBoth(l, f, false)
+	e.sleepHB(2, 4)
+	return e.finish()
+}
+
 func init() { scenarios["late-install-response"] = scenLateInstallResponse }
 
 // scenLateInstallResponse (C15 / C17): a new node is brought up by snapshot
